@@ -24,4 +24,11 @@ theorem C04_reserved_complete :
     C12.goPredeclared.all (fun k => Gen.predeclared.contains k) = true :=
   ⟨C12.C12_reserved_complete.2.1, C12.C12_reserved_complete.2.2.1⟩
 
+/-- the local identifiers the emitter introduces by itself (errgroup variable, channel loop variable, zero value)
+    are reserved in the pool, so no provided value, channel, error variable, parameter or import alias is given
+    one of these names -/
+theorem C04_emitter_locals_reserved :
+    ["eg", "ch", "zero"].all (fun k => Gen.generatorLocals.contains k) = true ∧
+    Gen.generatorLocals.all (fun k => decide (0 < count seedPool k)) = true := by decide
+
 end C04
